@@ -38,7 +38,7 @@ pub fn sweep_header(cx: &mut Cx, origin: &str, h: &JwsHeader) {
 }
 
 /// Accessors on a decoded item, then `verify` with every verifier against a set of attacker keys.
-pub fn sweep_item(cx: &mut Cx, w: &World, origin: &str, mk: &dyn Fn() -> Option<JwsValidationItem<'static>>, rng: &mut Rng, deep: bool) {
+pub fn sweep_item<'a>(cx: &mut Cx, w: &World, origin: &str, mk: &dyn Fn() -> Option<JwsValidationItem<'a>>, rng: &mut Rng, deep: bool) {
   let Some(item) = mk() else { return };
   let i = In::C(origin, "JwsValidationItem");
   cx.acc("JwsValidationItem.getters", i, || (item.nonce().map(str::len), item.kid().map(str::len), item.alg().map(|a| a.name().len()), item.claims().len(), item.signing_input().len(), item.decoded_signature().len()));
@@ -69,13 +69,13 @@ pub fn sweep_item(cx: &mut Cx, w: &World, origin: &str, mk: &dyn Fn() -> Option<
     let arg = format!("key={}", name);
     let i = In::C(origin, &arg);
     if let Some(it) = mk() {
-      if let Some(Ok(d)) = cx.acc("JwsValidationItem.verify[EcDSA]", i, move || it.verify(&EcDSAJwsVerifier::default(), k)) {
+      if let Some(Ok(d)) = cx.acc("JwsValidationItem.verify", i, move || it.verify(&EcDSAJwsVerifier::default(), k)) {
         cx.rep.inc("jws_verified");
         cx.acc("DecodedJws.sweep", i, || (d.claims.len(), d.protected.alg().is_some(), d.unprotected.is_some(), format!("{:?}", d).len(), d.clone() == d));
       }
     }
     if let Some(it) = mk() {
-      if let Some(Ok(d)) = cx.acc("JwsValidationItem.verify[EdDSA]", i, move || it.verify(&EdDSAJwsVerifier::default(), k)) {
+      if let Some(Ok(d)) = cx.acc("JwsValidationItem.verify", i, move || it.verify(&EdDSAJwsVerifier::default(), k)) {
         cx.rep.inc("jws_verified");
         cx.acc("DecodedJws.sweep", i, || (d.claims.len(), d.protected.alg().is_some(), d.unprotected.is_some(), format!("{:?}", d).len()));
       }
@@ -83,8 +83,6 @@ pub fn sweep_item(cx: &mut Cx, w: &World, origin: &str, mk: &dyn Fn() -> Option<
   }
 }
 
-/// `data` and `detached` are leaked per call site below (bounded: only for accepted tokens) so that
-/// items can be re-created with a 'static lifetime for the verify sweep.
 fn feed(cx: &mut Cx, w: &World, rng: &mut Rng, data: &[u8], detached: Option<&[u8]>, deep: bool) {
   let dec = Decoder::new();
   let i = In::B(data);
@@ -94,22 +92,19 @@ fn feed(cx: &mut Cx, w: &World, rng: &mut Rng, data: &[u8], detached: Option<&[u
   let io = In::C(&origin, &arg);
   let ok = cx.ent("Decoder::decode_compact_serialization", if detached.is_some() { io } else { i }, || dec.decode_compact_serialization(data, detached).map(|_| ())).is_some();
   if ok {
-    let d: &'static [u8] = Box::leak(data.to_vec().into_boxed_slice());
-    let p: Option<&'static [u8]> = detached.map(|x| &*Box::leak(x.to_vec().into_boxed_slice()));
+    let (d, p) = (data, detached);
     sweep_item(cx, w, &origin, &|| Decoder::new().decode_compact_serialization(d, p).ok(), rng, deep);
   }
   let ok = cx.ent("Decoder::decode_flattened_serialization", if detached.is_some() { io } else { i }, || dec.decode_flattened_serialization(data, detached).map(|_| ())).is_some();
   if ok {
-    let d: &'static [u8] = Box::leak(data.to_vec().into_boxed_slice());
-    let p: Option<&'static [u8]> = detached.map(|x| &*Box::leak(x.to_vec().into_boxed_slice()));
+    let (d, p) = (data, detached);
     sweep_item(cx, w, &origin, &|| Decoder::new().decode_flattened_serialization(d, p).ok(), rng, deep);
   }
   let n = cx.ent("Decoder::decode_general_serialization", if detached.is_some() { io } else { i }, || {
     dec.decode_general_serialization(data, detached).map(|it| it.map(|r| r.is_ok()).collect::<Vec<bool>>())
   });
   if let Some(oks) = n {
-    let d: &'static [u8] = Box::leak(data.to_vec().into_boxed_slice());
-    let p: Option<&'static [u8]> = detached.map(|x| &*Box::leak(x.to_vec().into_boxed_slice()));
+    let (d, p) = (data, detached);
     for (k, ok) in oks.iter().enumerate().take(4) {
       if *ok {
         sweep_item(cx, w, &origin, &|| Decoder::new().decode_general_serialization(d, p).ok().and_then(|mut it| it.nth(k)).and_then(|r| r.ok()), rng, deep);
@@ -128,7 +123,6 @@ fn feed_header(cx: &mut Cx, j: &str) {
 fn feed_b64(cx: &mut Cx, s: &str) {
   cx.ent("jwu::decode_b64", In::S(s), || jwu::decode_b64(s));
   cx.ent("jwu::decode_b64_json", In::S(s), || jwu::decode_b64_json::<Value>(s));
-  cx.ent("jwu::parse_utf8", In::S(s), || jwu::parse_utf8(s.as_bytes()).map(|x| x.len()));
   cx.ent("CharSet::validate", In::S(s), || CharSet::Default.validate(s.as_bytes()).map(|x| x.len()));
   cx.ent("CharSet::validate", In::S(s), || CharSet::UrlSafe.validate(s.as_bytes()).map(|x| x.len()));
 }
